@@ -565,7 +565,7 @@ func genRecvHistoryWith(c *corr.Ctx, forceSize int) *RecvHistory {
 
 // Run is the domain entry point.
 func Run(c *corr.Ctx) {
-	c.Rule("arrival histories derived from an ordered sender stream (random start incl. wrap positions) by loss, bounded displacement, duplication, restart, plus loss-free permutations in which no packet arrives before a packet BufferSize or more positions behind it (mode 6; the displacement clause must hold on these); sizes 1..512 (powers of two); reliable and unreliable; a case is non-trivial when it has more than one arrival; distinct = distinct op-line sequences; plus an end-to-end layer (library Client from a scripted raw server, library Server in record mode from a raw publisher, UDP and TCP, BufferSize 64): same generator, every delivered packet must carry the content sent for its sequence number and the application must see what the receiver yields for the history; plus a concurrency layer (report() against ProcessPacket2 from another goroutine: deterministic probe through TimeNow, and 10^5-packet stress with forced / ticker reports) with the conservation law over all emitted reports")
+	c.Rule("arrival histories derived from an ordered sender stream (random start incl. wrap positions) by loss, bounded displacement, duplication, restart, plus loss-free permutations in which no packet arrives before a packet BufferSize or more positions behind it (mode 6; the displacement clause must hold on these); sizes 1..512 (powers of two); reliable and unreliable; a case is non-trivial when it has more than one arrival; distinct = distinct op-line sequences; plus an end-to-end layer (library Client from a scripted raw server with every way the transport can be chosen — explicit UDP / TCP / multicast, automatic selection with UDP granted, refused by 461, answered with TCP —, library Server in record mode from a raw publisher over UDP and TCP, BufferSize 64; the receiver must run in the mode of the NEGOTIATED transport): same generator, every delivered packet must carry the content sent for its sequence number and the application must see what the receiver yields for the history; plus a concurrency layer (report() against ProcessPacket2 from another goroutine: deterministic probe through TimeNow, and 10^5-packet stress with forced / ticker reports) with the conservation law over all emitted reports")
 	if c.Replay != nil {
 		var h RecvHistory
 		if err := json.Unmarshal(c.Replay, &h); err != nil {
